@@ -55,7 +55,9 @@ def merge_declarations(dest: AbbreviationAttribute, src: AbbreviationAttribute, 
     if not dest.implied: dest.implied = src.implied
     if not dest.boolean: dest.boolean = src.boolean
 
-    if dest.value_type != 'expression':
+    if dest.value_type != 'expression' and (src.value_type == 'expression' or not config.options.get('output.reverseAttributes')):
+        # A quoted/raw value type belongs to the value it describes: do not
+        # take it from an attribute whose value is not taken
         dest.value_type = src.value_type
 
     return dest
